@@ -40,9 +40,7 @@ Proof.
   induction H; intros Ht Hp; auto.
   - (* retire *) apply IHRecv; auto. simpl in *. rewrite Forall_forall in *. intros x Hx. apply Ht.
     eapply In_remove_nat_sub; eauto.
-  - (* conv item *) simpl in *. apply IHRecv; auto.
   - (* conv skip *) simpl in *. destruct (IHRecv1 Ht Hp) as [A B]. apply IHRecv2; auto.
-  - (* conv other *) simpl in *. apply IHRecv; auto.
   - (* child have *) split; auto. simpl. apply Forall_upd; auto. simpl. exact (Forall_nth_error _ _ _ _ _ Hp H).
   - (* child eof *) split; auto. simpl. apply Forall_upd; auto. simpl. exact (Forall_nth_error _ _ _ _ _ Hp H).
   - destruct (IHRecv (Forall_nth_error _ _ _ _ _ Hp H) Hp) as [A B]. split; auto. simpl. apply Forall_upd; auto.
@@ -113,7 +111,7 @@ Proof.
     destruct t; inversion H; subst; clear H; simpl; rewrite ?consume_store, ?consume_fwds; repeat split; auto;
       try (apply Forall_app; split; [exact C2|]);
       try (apply Forall_repeat; simpl; auto; fail);
-      try (apply Forall_forall; intros Hh Hin; apply in_map_iff in Hin; destruct Hin as (i & <- & _); simpl; auto; fail);
+      try (apply Forall_forall; intros Hh Hin; apply in_map_iff in Hin; destruct Hin as (ii & <- & _); simpl; auto; fail);
       try (unfold pmidx; simpl; apply Forall_app; split; [exact H2 | repeat constructor; exact Ht]).
   - destruct hs as [|h0 [|h1 hs']]; [inversion H; subst; auto| |].
     { destruct (live_rd G h0); inversion H; subst; auto. }
@@ -126,15 +124,14 @@ Proof.
     pose proof (merge_collect_midx _ _ _ _ _ _ _ _ _ Em H3 Hts) as Hfw1.
     destruct (merge_collect_spec _ _ _ _ _ _ _ _ _ Em) as (Hp1 & _).
     assert (Hpm : pmidx st1) by (unfold pmidx; rewrite Hp1; exact H2).
-    destruct ss as [|s0 ss']; destruct arr as [|a0 arr']; inversion H; subst; clear H; simpl; repeat split; auto;
-      try (apply Forall_app; split; [exact C2 | repeat constructor]);
-      try (apply Forall_forall; intros i Hi; apply in_seq in Hi; simpl in *; lia).
-    + simpl. rewrite app_length. simpl. constructor; [lia|].
-      apply Forall_forall. intros i Hi. apply in_seq in Hi. lia.
+    destruct ss as [|s0 ss']; destruct arr as [|a0 arr']; inversion H; subst; clear H;
+      cbn [st_handles st_store st_fwds]; (split; [|split; auto]);
+      (apply Forall_app; split; [exact C2|]); (apply Forall_cons; [|apply Forall_nil]); cbn [h_rd];
+      first [exact I | apply midx_fresh_mul].
   - destruct (live_rd G h) as [t|] eqn:El; [|inversion H; subst; auto].
     pose proof (live_rd_midx _ _ _ H1 El) as Ht. pose proof (consume_midx G h H1) as C2.
     inversion H; subst. simpl. rewrite consume_store, consume_fwds. repeat split; auto.
-    apply Forall_app. split; auto. repeat constructor. exact Ht.
+    apply Forall_app. split; auto.
   - destruct (nth_error (streams (st_store G)) sid) as [s|] eqn:Es; [|inversion H; subst; auto].
     destruct (negb (s_user s)); [inversion H; subst; auto|].
     destruct (stream_send s x) as [r s'] eqn:E. inversion H; subst. simpl. repeat split; auto.
@@ -181,4 +178,460 @@ Proof.
   - inversion H; subst; auto.
   - destruct (do_op fuel G o) as [b G1] eqn:E1. destruct (run fuel G1 r) as [bs2 G2] eqn:E2.
     inversion H; subst. eapply IH; eauto. eapply do_op_midx; eauto.
+Qed.
+
+(* ------------------------------------------------------------------ every open internal stream has its forwarder *)
+
+Definition active (F : fwd) : Prop := f_st F = FRecv \/ exists x, f_st F = FSend x.
+
+(* an internal stream (made by toStream) whose send side is still open is the destination of
+   a forwarder goroutine that is in its loop *)
+Definition fwd_feeds (G : state) : Prop :=
+  forall sid s, nth_error (streams (st_store G)) sid = Some s -> s_user s = false -> s_sclosed s = false ->
+    exists k F, nth_error (st_fwds G) k = Some F /\ f_dst F = sid /\ active F.
+
+Definition open_sub (ss ss' : list stream) : Prop :=
+  forall sid s', nth_error ss' sid = Some s' -> s_user s' = false -> s_sclosed s' = false ->
+    exists s, nth_error ss sid = Some s /\ s_user s = false /\ s_sclosed s = false.
+
+Lemma open_sub_refl : forall ss, open_sub ss ss.
+Proof. intros ss sid s H U C. eauto. Qed.
+
+Lemma open_sub_trans : forall a b c, open_sub a b -> open_sub b c -> open_sub a c.
+Proof.
+  intros a b c A B sid s H U C. destruct (B _ _ H U C) as (s1 & H1 & U1 & C1). eapply A; eauto.
+Qed.
+
+Lemma open_sub_store_rel : forall st st', store_rel st st' -> open_sub (streams st) (streams st').
+Proof.
+  intros st st' [H _] sid s' Hn U C. destruct (Forall2_nth_r _ _ _ _ _ _ H Hn) as (s & Hs & (_ & E2 & _ & E4 & _)).
+  exists s. split; auto. split; congruence.
+Qed.
+
+Lemma open_sub_cstore_rel : forall st st', cstore_rel st st' -> open_sub (streams st) (streams st').
+Proof.
+  intros st st' [H _] sid s' Hn U C. destruct (Forall2_nth_r _ _ _ _ _ _ H Hn) as (s & Hs & (_ & _ & E3 & E4 & _)).
+  exists s. split; auto. split; congruence.
+Qed.
+
+Lemma open_sub_upd : forall ss sid s s', nth_error ss sid = Some s ->
+  s_user s' = s_user s -> (s_sclosed s' = false -> s_sclosed s = false) -> open_sub ss (upd ss sid s').
+Proof.
+  intros ss sid s s' Hn U C sid0 s0 Hn0 U0 C0. destruct (Nat.eq_dec sid sid0) as [<-|Hne].
+  - rewrite nth_error_upd_eq in Hn0 by (apply nth_error_Some; congruence). inversion Hn0; subst s0.
+    exists s. split; auto. split; [congruence | auto].
+  - rewrite nth_error_upd_neq in Hn0 by exact Hne. eauto.
+Qed.
+
+Lemma open_sub_app_closed : forall ss news, Forall (fun s => s_user s = true \/ s_sclosed s = true) news ->
+  open_sub ss (ss ++ news).
+Proof.
+  intros ss news Hf sid s' Hn U C. destruct (Nat.lt_ge_cases sid (List.length ss)) as [Hlt|Hge].
+  - rewrite nth_error_app1 in Hn by exact Hlt. eauto.
+  - rewrite nth_error_app2 in Hn by exact Hge. apply nth_error_In in Hn. rewrite Forall_forall in Hf.
+    destruct (Hf _ Hn); congruence.
+Qed.
+
+Lemma feeds_same_fwds : forall G G', fwd_feeds G -> st_fwds G' = st_fwds G ->
+  open_sub (streams (st_store G)) (streams (st_store G')) -> fwd_feeds G'.
+Proof.
+  intros G G' HF Ef Ho sid s' Hn U C. destruct (Ho _ _ Hn U C) as (s & Hs & Us & Cs).
+  rewrite Ef. eapply HF; eauto.
+Qed.
+
+Lemma feeds_fwd_step : forall G G' k F F', fwd_feeds G -> nth_error (st_fwds G) k = Some F ->
+  st_fwds G' = upd (st_fwds G) k F' -> f_dst F' = f_dst F ->
+  open_sub (streams (st_store G)) (streams (st_store G')) ->
+  (active F' \/ ~ active F
+   \/ (forall s', nth_error (streams (st_store G')) (f_dst F) = Some s' -> s_sclosed s' = true)) ->
+  fwd_feeds G'.
+Proof.
+  intros G G' k F F' HF Hk Ef Ed Ho Hcase sid s' Hn U C. destruct (Ho _ _ Hn U C) as (s & Hs & Us & Cs).
+  destruct (HF _ _ Hs Us Cs) as (j & F0 & Hj & Hd & Ha). rewrite Ef.
+  destruct (Nat.eq_dec k j) as [<-|Hne].
+  - rewrite Hk in Hj. inversion Hj; subst F0. destruct Hcase as [A|[A|A]].
+    + exists k, F'. split; [apply nth_error_upd_eq; apply nth_error_Some; congruence|]. split; [congruence | exact A].
+    + contradiction.
+    + rewrite Hd in A. rewrite (A _ Hn) in C. discriminate.
+  - exists j, F0. rewrite nth_error_upd_neq by exact Hne. auto.
+Qed.
+
+Lemma merge_collect_news : forall ts st fw ss arr st' fw' ss' arr',
+  merge_collect st fw ts ss arr = (st', fw', ss', arr') ->
+  exists news, fw' = fw ++ news /\ Forall (fun F => f_st F = FRecv) news
+    /\ map f_dst news = seq (List.length (streams st)) (List.length news)
+    /\ streams st' = streams st ++ repeat (new_stream 5 false) (List.length news).
+Proof.
+  induction ts as [|t r IH]; intros st fw ss arr st' fw' ss' arr' H; simpl in H.
+  - inversion H; subst. exists []. simpl. rewrite !app_nil_r. auto.
+  - assert (Hfwd : merge_collect (add_stream st (new_stream 5 false)) (fw ++ [mkF t (List.length (streams st)) FRecv false]) r
+                            (ss ++ [List.length (streams st)]) arr = (st', fw', ss', arr') ->
+       exists news, fw' = fw ++ news /\ Forall (fun F => f_st F = FRecv) news
+         /\ map f_dst news = seq (List.length (streams st)) (List.length news)
+         /\ streams st' = streams st ++ repeat (new_stream 5 false) (List.length news)).
+    { intros H0. destruct (IH _ _ _ _ _ _ _ _ H0) as (news & E1 & E2 & E3 & E4).
+      exists (mkF t (List.length (streams st)) FRecv false :: news). split; [rewrite E1, <- app_assoc; reflexivity|].
+      split; [constructor; auto|]. simpl in E3, E4. rewrite app_length in E3. simpl in E3.
+      replace (List.length (streams st) + 1) with (S (List.length (streams st))) in E3 by lia.
+      split; [simpl; rewrite E3; reflexivity|]. rewrite E4, <- app_assoc. reflexivity. }
+    destruct t as [d rest | s | sts ch | f src cin cout | p i]; eauto.
+Qed.
+
+Lemma feeds_merge : forall G ts st1 fw1 ss arr st2 hs2,
+  fwd_feeds G -> merge_collect (st_store G) (st_fwds G) ts [] [] = (st1, fw1, ss, arr) ->
+  (streams st2 = streams st1 \/ exists a, streams st2 = streams st1 ++ [array_stream a]) ->
+  fwd_feeds (mkState st2 fw1 hs2).
+Proof.
+  intros G ts st1 fw1 ss arr st2 hs2 HF Em Hst2.
+  destruct (merge_collect_news _ _ _ _ _ _ _ _ _ Em) as (news & E1 & E2 & E3 & E4).
+  set (n0 := List.length (streams (st_store G))) in *.
+  intros sid s' Hn U C. simpl in *.
+  assert (Hn1 : nth_error (streams st1) sid = Some s').
+  { destruct Hst2 as [E0|(a & Ea)]; [rewrite E0 in Hn; exact Hn|]. rewrite Ea in Hn.
+    destruct (Nat.lt_ge_cases sid (List.length (streams st1))) as [Hlt|Hge].
+    - rewrite nth_error_app1 in Hn by exact Hlt. exact Hn.
+    - rewrite nth_error_app2 in Hn by exact Hge. apply nth_error_In in Hn. destruct Hn as [<-|[]]. discriminate. }
+  rewrite E4 in Hn1. rewrite E1.
+  destruct (Nat.lt_ge_cases sid n0) as [Hlt|Hge].
+  - rewrite nth_error_app1 in Hn1 by exact Hlt. destruct (HF _ _ Hn1 U C) as (j & F0 & Hj & Hd & Ha).
+    exists j, F0. rewrite nth_error_app1 by (apply nth_error_Some; congruence). auto.
+  - rewrite nth_error_app2 in Hn1 by exact Hge. fold n0 in Hn1.
+    assert (Hlen : sid - n0 < List.length news).
+    { assert (Y : nth_error (repeat (new_stream 5 false) (List.length news)) (sid - n0) <> None) by congruence.
+      apply nth_error_Some in Y. rewrite repeat_length in Y. exact Y. }
+    destruct (nth_error news (sid - n0)) as [F0|] eqn:EF0; [|apply nth_error_None in EF0; lia].
+    exists (List.length (st_fwds G) + (sid - n0)), F0.
+    rewrite nth_error_app2 by lia.
+    replace (List.length (st_fwds G) + (sid - n0) - List.length (st_fwds G)) with (sid - n0) by lia.
+    split; auto. split.
+    + pose proof (map_nth_error f_dst _ _ EF0) as Hm. rewrite E3 in Hm.
+      apply nth_error_nth with (d := 0) in Hm. rewrite seq_nth in Hm by exact Hlen. lia.
+    + left. rewrite Forall_forall in E2. apply E2. eapply nth_error_In; eauto.
+Qed.
+
+Lemma stream_close_send_closed : forall s r s', stream_close_send s = (r, s') -> s_sclosed s' = true /\ s_user s' = s_user s.
+Proof.
+  intros s r s'. unfold stream_close_send. destruct (s_sclosed s) eqn:E; intros H; inversion H; subst; simpl; auto.
+Qed.
+
+Lemma stream_send_flags : forall s x r s', stream_send s x = (r, s') -> s_sclosed s' = s_sclosed s /\ s_user s' = s_user s.
+Proof.
+  intros s x r s'. unfold stream_send.
+  destruct (Nat.ltb 0 (s_rclosed s)); [intros H; inversion H; subst; auto|].
+  destruct (s_sclosed s) eqn:E; [intros H; inversion H; subst; auto|].
+  destruct (Nat.ltb _ _); intros H; inversion H; subst; simpl; auto.
+Qed.
+
+Lemma do_op_feeds : forall fuel G o b G', do_op fuel G o = (b, G') -> fwd_feeds G -> fwd_feeds G'.
+Proof.
+  intros fuel G o b G' H HF.
+  destruct o as [cap | xs | h n | hs | h f | sid x | sid | h ch | h | k ch]; simpl in H.
+  - inversion H; subst. eapply feeds_same_fwds; eauto. simpl. apply open_sub_app_closed. repeat constructor.
+  - inversion H; subst. eapply feeds_same_fwds; eauto. apply open_sub_refl.
+  - destruct (live_rd G h) as [t|] eqn:El; [|inversion H; subst; auto].
+    destruct (Nat.ltb n 2); [inversion H; subst; auto|].
+    destruct t; inversion H; subst; clear H;
+      (eapply feeds_same_fwds; eauto; simpl; rewrite ?consume_fwds, ?consume_store; auto; apply open_sub_refl).
+  - destruct hs as [|h0 [|h1 hs']]; [inversion H; subst; auto| |].
+    { destruct (live_rd G h0); inversion H; subst; auto. }
+    destruct (negb (nodupb (h0 :: h1 :: hs'))); [inversion H; subst; auto|].
+    destruct (live_rds G (h0 :: h1 :: hs')) as [ts|] eqn:El; [|inversion H; subst; auto].
+    rewrite consume_all_store, consume_all_fwds in H.
+    destruct (merge_collect _ _ ts [] []) as [[[st1 fw1] ss] arr] eqn:Em.
+    destruct ss as [|s0 ss']; destruct arr as [|a0 arr']; inversion H; subst; clear H;
+      (eapply feeds_merge; eauto; simpl; eauto).
+  - destruct (live_rd G h) as [t|] eqn:El; [|inversion H; subst; auto].
+    inversion H; subst. eapply feeds_same_fwds; eauto; simpl; rewrite ?consume_fwds, ?consume_store; auto. apply open_sub_refl.
+  - destruct (nth_error (streams (st_store G)) sid) as [s|] eqn:Es; [|inversion H; subst; auto].
+    destruct (negb (s_user s)); [inversion H; subst; auto|].
+    destruct (stream_send s x) as [r s'] eqn:E. inversion H; subst. eapply feeds_same_fwds; eauto. simpl.
+    destruct (stream_send_flags _ _ _ _ E) as [A B]. eapply open_sub_upd; eauto; congruence.
+  - destruct (nth_error (streams (st_store G)) sid) as [s|] eqn:Es; [|inversion H; subst; auto].
+    destruct (negb (s_user s)); [inversion H; subst; auto|].
+    destruct (stream_close_send s) as [r s'] eqn:E. inversion H; subst. eapply feeds_same_fwds; eauto. simpl.
+    destruct (stream_close_send_closed _ _ _ E) as [A B]. eapply open_sub_upd; eauto; congruence.
+  - destruct (nth_error (st_handles G) h) as [Hh|] eqn:Eh; [|inversion H; subst; auto].
+    destruct (negb (h_live Hh)); [inversion H; subst; auto|].
+    destruct (recv fuel (st_store G) (h_rd Hh) ch) as [[[r st1] t1] ch1] eqn:Er.
+    inversion H; subst. apply recv_Recv in Er. eapply feeds_same_fwds; eauto. simpl.
+    apply open_sub_store_rel. apply (Recv_static _ _ _ _ _ Er).
+  - destruct (nth_error (st_handles G) h) as [Hh|] eqn:Eh; [|inversion H; subst; auto].
+    destruct (negb (h_live Hh)); [inversion H; subst; auto|].
+    destruct (close_rd fuel (st_store G) (h_rd Hh)) as [r st1] eqn:Er.
+    inversion H; subst. apply close_Close in Er. eapply feeds_same_fwds; eauto. simpl.
+    apply open_sub_cstore_rel. eapply Close_static; eauto.
+  - destruct (nth_error (st_fwds G) k) as [F|] eqn:EF; [|inversion H; subst; auto].
+    destruct (f_st F) as [|x| |] eqn:Est.
+    + destruct (recv fuel (st_store G) (f_src F) ch) as [[[r st1] src1] ch1] eqn:Er.
+      apply recv_Recv in Er. pose proof (open_sub_store_rel _ _ (proj1 (Recv_static _ _ _ _ _ Er))) as Ho.
+      destruct r.
+      * inversion H; subst.
+        eapply (feeds_fwd_step G _ k F (mkF src1 (f_dst F) (FSend x) (f_eof F))); [exact HF | exact EF | reflexivity | reflexivity | exact Ho |].
+        left. right. eexists. reflexivity.
+      * destruct (nth_error (streams st1) (f_dst F)) as [d|] eqn:Ed; [|inversion H; subst; auto].
+        destruct (stream_close_send d) as [r0 d'] eqn:Ec. inversion H; subst.
+        destruct (stream_close_send_closed _ _ _ Ec) as [A B].
+        eapply (feeds_fwd_step G _ k F (mkF src1 (f_dst F) FClosing true)); [exact HF | exact EF | reflexivity | reflexivity | |].
+        -- simpl. eapply open_sub_trans; [exact Ho|]. eapply open_sub_upd; eauto; congruence.
+        -- right. right. simpl. intros s' Hs'. rewrite nth_error_upd_eq in Hs' by (apply nth_error_Some; congruence).
+           inversion Hs'; subst. exact A.
+      * inversion H; subst.
+        eapply (feeds_fwd_step G _ k F (mkF src1 (f_dst F) FRecv (f_eof F))); [exact HF | exact EF | reflexivity | reflexivity | exact Ho |].
+        left. left. reflexivity.
+      * inversion H; subst.
+        eapply (feeds_fwd_step G _ k F (mkF src1 (f_dst F) FRecv (f_eof F))); [exact HF | exact EF | reflexivity | reflexivity | exact Ho |].
+        left. left. reflexivity.
+      * inversion H; subst.
+        eapply (feeds_fwd_step G _ k F (mkF src1 (f_dst F) FRecv (f_eof F))); [exact HF | exact EF | reflexivity | reflexivity | exact Ho |].
+        left. left. reflexivity.
+    + destruct (nth_error (streams (st_store G)) (f_dst F)) as [d|] eqn:Ed; [|inversion H; subst; auto].
+      destruct (stream_send d x) as [r d'] eqn:Es.
+      destruct r; try (inversion H; subst; exact HF).
+      * inversion H; subst. destruct (stream_send_flags _ _ _ _ Es) as [A B].
+        eapply (feeds_fwd_step G _ k F (mkF (f_src F) (f_dst F) FRecv (f_eof F))); [exact HF | exact EF | reflexivity | reflexivity | |].
+        -- simpl. eapply open_sub_upd; eauto; congruence.
+        -- left. left. reflexivity.
+      * destruct (stream_close_send d) as [r0 d''] eqn:Ec. inversion H; subst.
+        destruct (stream_close_send_closed _ _ _ Ec) as [A B].
+        eapply (feeds_fwd_step G _ k F (mkF (f_src F) (f_dst F) FClosing (f_eof F))); [exact HF | exact EF | reflexivity | reflexivity | |].
+        -- simpl. eapply open_sub_upd; eauto; congruence.
+        -- right. right. simpl. intros s' Hs'. rewrite nth_error_upd_eq in Hs' by (apply nth_error_Some; congruence).
+           inversion Hs'; subst. exact A.
+    + destruct (close_rd fuel (st_store G) (f_src F)) as [r st1] eqn:Er.
+      inversion H; subst. apply close_Close in Er.
+      eapply (feeds_fwd_step G _ k F (mkF (f_src F) (f_dst F) FDone (f_eof F))); [exact HF | exact EF | reflexivity | reflexivity | |].
+      * simpl. apply open_sub_cstore_rel. eapply Close_static; eauto.
+      * right. left. intros [A|[x A]]; congruence.
+    + inversion H; subst; auto.
+Qed.
+
+Lemma init_feeds : fwd_feeds init_state.
+Proof. intros sid s H. destruct sid; discriminate. Qed.
+
+Lemma run_feeds : forall fuel ops G bs G', run fuel G ops = (bs, G') -> fwd_feeds G -> fwd_feeds G'.
+Proof.
+  intros fuel. induction ops as [|o r IH]; intros G bs G' H HG; simpl in H.
+  - inversion H; subst; auto.
+  - destruct (do_op fuel G o) as [b G1] eqn:E1. destruct (run fuel G1 r) as [bs2 G2] eqn:E2.
+    inversion H; subst. eapply IH; eauto. eapply do_op_feeds; eauto.
+Qed.
+
+(* ------------------------------------------------------------------ drained readers *)
+
+Definition sempty (st : store) (sid : nat) : Prop :=
+  exists s, nth_error (streams st) sid = Some s /\ s_buf s = [] /\ s_sclosed s = false.
+
+(* reader t has nothing to hand out now and has not ended *)
+Inductive Drained (st : store) : rd -> Prop :=
+| D_str : forall sid, sempty st sid -> Drained st (RStr sid)
+| D_mul : forall sts ch, ch <> [] ->
+    (forall i sid, In i ch -> nth_error sts i = Some sid -> stream_ready st sid = false) ->
+    Drained st (RMul sts ch)
+| D_conv : forall f src cin cout, Drained st src -> Drained st (RConv f src cin cout)
+| D_child : forall p i P c,
+    nth_error (parents st) p = Some P -> nth_error (p_cur P) i = Some (Some c) ->
+    nth_error (p_items P) c = None -> p_eof P = false ->
+    Drained st (p_src P) -> Drained st (RChild p i).
+
+Lemma ref_below_mono : forall p pb r, p <= pb -> ref_below p r -> ref_below pb r.
+Proof. intros p pb [s|q j]; simpl; auto. lia. Qed.
+
+Lemma Drained_frame : forall st t, Drained st t -> forall pb st', acyclic st ->
+  Forall (ref_below pb) (refs t) -> streams st' = streams st ->
+  (forall q, q < pb -> nth_error (parents st') q = nth_error (parents st) q) -> Drained st' t.
+Proof.
+  intros st t H. induction H; intros pb st' Ha Hb Es Ep.
+  - constructor. unfold sempty in *. rewrite Es. exact H.
+  - constructor; auto. intros i sid Hi Hs. unfold stream_ready. rewrite Es. apply (H0 i sid Hi Hs).
+  - constructor. eapply IHDrained; eauto.
+  - simpl in Hb. inversion Hb; subst. simpl in H6.
+    econstructor; eauto; [rewrite Ep by exact H6; exact H|].
+    eapply (IHDrained pb); eauto.
+    eapply Forall_impl; [|apply (Ha _ _ H)]. intros r. apply ref_below_mono. lia.
+Qed.
+
+Lemma stream_recv_block : forall s r s', stream_recv s = (r, s') -> r = PBlock ->
+  s' = s /\ s_buf s = [] /\ s_sclosed s = false.
+Proof.
+  intros s r s'. unfold stream_recv. destruct (s_buf s) as [|x b]; [|intros H E; inversion H; subst; discriminate].
+  destruct (s_sclosed s); intros H E; inversion H; subst; [discriminate | auto].
+Qed.
+
+(* a Recv that blocks leaves its reader drained *)
+Lemma Recv_block_drained : forall st t r st' t', Recv st t r st' t' -> r = PBlock -> acyclic st -> Drained st' t'.
+Proof.
+  intros st t r st' t' H. induction H; intros Er Ha; try discriminate.
+  - (* stream *)
+    destruct (stream_recv_block _ _ _ H0 Er) as (-> & Hb & Hc). constructor. exists s. split; auto.
+    simpl. apply nth_error_upd_eq. apply nth_error_Some. congruence.
+  - (* multi: no source ready *) constructor; auto.
+  - (* multi: after retiring a finished source *) auto.
+  - (* convert: after skipping an item *)
+    apply IHRecv2; auto. eapply acyclic_store_rel; [apply (Recv_static _ _ _ _ _ H)|exact Ha].
+  - (* convert *) constructor. auto.
+  - (* copy: the pull from the source blocked *)
+    destruct (Recv_static _ _ _ _ _ H3) as [SR Hrf].
+    pose proof (acyclic_store_rel _ _ SR Ha) as Ha1.
+    assert (Hlen : p < List.length (parents st1)).
+    { destruct SR as [_ SP]. rewrite <- (Forall2_length' _ _ _ _ SP). apply nth_error_Some. congruence. }
+    apply (D_child _ p i (with_src P src1) c); simpl; auto.
+    + apply nth_error_upd_eq. exact Hlen.
+    + eapply (Drained_frame st1 src1 (IHRecv Er Ha) p); eauto.
+      * rewrite Hrf. apply (Ha _ _ H).
+      * intros q Hq. simpl. apply nth_error_upd_neq. lia.
+  - destruct H as [->| ->]; discriminate.
+Qed.
+
+(* ------------------------------------------------------------------ blocked forwarders, derivation *)
+
+(* the forwarder goroutine is blocked in its Recv (without having made progress) or in its
+   Send, or it has finished *)
+Definition fwd_blocked (fuel : nat) (G : state) (F : fwd) : Prop :=
+  match f_st F with
+  | FDone => True
+  | FClosing => False
+  | FSend x => exists d, nth_error (streams (st_store G)) (f_dst F) = Some d /\ fst (stream_send d x) = SBlock
+  | FRecv => exists ch ch1, recv fuel (st_store G) (f_src F) ch = (PBlock, st_store G, f_src F, ch1)
+  end.
+
+(* reader t derives (through forwarders and copy parents) from user pipe u *)
+Inductive Derives (G : state) : rd -> nat -> Prop :=
+| DV_user : forall sid s, nth_error (streams (st_store G)) sid = Some s -> s_user s = true -> Derives G (RStr sid) sid
+| DV_fwd : forall sid F u, In F (st_fwds G) -> f_dst F = sid -> Derives G (f_src F) u -> Derives G (RStr sid) u
+| DV_mul : forall sts ch sid u, In sid sts -> Derives G (RStr sid) u -> Derives G (RMul sts ch) u
+| DV_conv : forall f src cin cout u, Derives G src u -> Derives G (RConv f src cin cout) u
+| DV_child : forall p i P u, nth_error (parents (st_store G)) p = Some P -> Derives G (p_src P) u -> Derives G (RChild p i) u.
+
+Lemma send_empty_no_block : forall s x, s_buf s = [] -> fst (stream_send s x) <> SBlock.
+Proof.
+  intros s x Hb. unfold stream_send. destruct (Nat.ltb 0 (s_rclosed s)); [simpl; discriminate|].
+  destruct (s_sclosed s); [simpl; discriminate|]. rewrite Hb. simpl.
+  assert (Nat.ltb 0 (eff_cap (s_cap s)) = true) as -> by (apply Nat.ltb_lt; unfold eff_cap; lia).
+  simpl. discriminate.
+Qed.
+
+(* a blocked Send is released by the next receive from that stream *)
+Lemma send_block_reader_ready : forall s x, List.length (s_buf s) <= eff_cap (s_cap s) ->
+  fst (stream_send s x) = SBlock ->
+  exists y s1, stream_recv s = (PItem y, s1) /\ fst (stream_send s1 x) = SOk.
+Proof.
+  intros s x Hcap. unfold stream_send, stream_recv.
+  destruct (Nat.ltb 0 (s_rclosed s)) eqn:Er; [simpl; discriminate|].
+  destruct (s_sclosed s) eqn:Ec; [simpl; discriminate|].
+  destruct (Nat.ltb (List.length (s_buf s)) (eff_cap (s_cap s))) eqn:El; [simpl; discriminate|]. intros _.
+  apply Nat.ltb_ge in El. destruct (s_buf s) as [|y b] eqn:Eb.
+  - simpl in El. unfold eff_cap in El. lia.
+  - exists y. eexists. split; [reflexivity|]. simpl. rewrite ?Er, ?Ec.
+    assert (Nat.ltb (List.length b) (eff_cap (s_cap s)) = true) as ->; [|reflexivity].
+    apply Nat.ltb_lt. simpl in Hcap. lia.
+Qed.
+
+(* ------------------------------------------------------------------ the main lemma *)
+
+Definition waits_for_writer (G : state) (t : rd) : Prop :=
+  exists u s, Derives G t u /\ nth_error (streams (st_store G)) u = Some s /\ s_user s = true
+              /\ s_buf s = [] /\ s_sclosed s = false /\ forall x, fst (stream_send s x) <> SBlock.
+
+Lemma stream_ready_false : forall st sid s, nth_error (streams st) sid = Some s -> stream_ready st sid = false ->
+  s_buf s = [] /\ s_sclosed s = false.
+Proof.
+  intros st sid s Hn H. unfold stream_ready in H. rewrite Hn in H. destruct (s_buf s); [auto | discriminate].
+Qed.
+
+Lemma drained_cause : forall fuel G rs rp, wf G -> RK rs rp G -> midx_state G -> fwd_feeds G ->
+  (forall F, In F (st_fwds G) -> fwd_blocked fuel G F) ->
+  forall n t, Forall (fun r => rkr rs rp r < n) (refs t) -> Forall (ref_ok (st_store G)) (refs t) -> midx t ->
+    Drained (st_store G) t -> waits_for_writer G t.
+Proof.
+  intros fuel G rs rp HW [K1 K2] (M1 & M2 & M3) HF HB.
+  assert (Hacy : acyclic (st_store G)) by apply HW.
+  assert (Hfok : forall F, In F (st_fwds G) -> Forall (ref_ok (st_store G)) (refs (f_src F))).
+  { intros F Hin. destruct HW as (_ & W2 & _). rewrite Forall_forall in *. intros r Hr. apply W2.
+    unfold all_refs. apply in_or_app. right. apply in_or_app. right. unfold frefs. apply in_flat_map. eauto. }
+  assert (Hpok : forall q Q, nth_error (parents (st_store G)) q = Some Q -> Forall (ref_ok (st_store G)) (refs (p_src Q))).
+  { intros q Q HQ. destruct HW as (_ & W2 & _). rewrite Forall_forall in *. intros r Hr. apply W2.
+    unfold all_refs. apply in_or_app. right. apply in_or_app. left. unfold prefs. apply in_flat_map.
+    exists Q. split; auto. eapply nth_error_In; eauto. }
+  induction n as [|n IHn]; intros t.
+  - induction t as [d rest | sid | sts ch | f src IHs cin cout | p i]; intros Hr Hok Hm Hd.
+    + inversion Hd.
+    + inversion Hr; subst. simpl in *. lia.
+    + inversion Hd as [ | sts0 ch0 Hne Hall | | ]; subst. destruct ch as [|i0 ch']; [congruence|]. simpl in Hm. inversion Hm; subst.
+      destruct (nth_error sts i0) as [sid|] eqn:Es; [|apply nth_error_None in Es; lia].
+      simpl in Hr. rewrite Forall_forall in Hr. specialize (Hr (RS sid) (in_map RS _ _ (nth_error_In _ _ Es))). simpl in Hr. lia.
+    + inversion Hd as [ | | f0 src0 cin0 cout0 Hd0 | ]; subst. simpl in *. destruct (IHs Hr Hok Hm Hd0) as (u & s & D & R). exists u, s. split; [constructor; exact D | exact R].
+    + inversion Hr; subst. simpl in *. lia.
+  - assert (Hstream : forall sid, rs sid < S n -> sid < List.length (streams (st_store G)) ->
+                        sempty (st_store G) sid -> waits_for_writer G (RStr sid)).
+    { intros sid Hlt Hin (s & Hs & Hb & Hc).
+      destruct (s_user s) eqn:Eu.
+      - exists sid, s. split; [eapply DV_user; eauto|]. repeat split; auto. intros x. apply send_empty_no_block. exact Hb.
+      - destruct (HF _ _ Hs Eu Hc) as (k & F & Hk & Hd & Ha). pose proof (nth_error_In _ _ Hk) as HinF.
+        pose proof (HB F HinF) as Hbl. unfold fwd_blocked in Hbl.
+        destruct Ha as [Ha|[x Ha]]; rewrite Ha in Hbl.
+        + destruct Hbl as (ch & ch1 & Er). apply recv_Recv in Er.
+          pose proof (Recv_block_drained _ _ _ _ _ Er eq_refl Hacy) as Hdr.
+          destruct (IHn (f_src F)) as (u & s0 & D & R); auto.
+          * specialize (K1 F HinF). rewrite Hd in K1. eapply Forall_impl; [|exact K1]. simpl. intros r Hr. lia.
+          * rewrite Forall_forall in M3. apply M3. exact HinF.
+          * exists u, s0. split; [eapply DV_fwd; eauto | exact R].
+        + exfalso. destruct Hbl as (d & Hdn & Hsb). rewrite Hd, Hs in Hdn. inversion Hdn; subst d.
+          apply (send_empty_no_block s x Hb). exact Hsb. }
+    induction t as [d rest | sid | sts ch | f src IHs cin cout | p i]; intros Hr Hok Hm Hd.
+    + inversion Hd.
+    + inversion Hd as [sid0 Hse | | | ]; subst. inversion Hr; subst. inversion Hok; subst. simpl in *. apply Hstream; auto.
+    + inversion Hd as [ | sts0 ch0 Hne Hall | | ]; subst. destruct ch as [|i0 ch']; [congruence|]. simpl in Hm. inversion Hm; subst.
+      destruct (nth_error sts i0) as [sid|] eqn:Es; [|apply nth_error_None in Es; lia].
+      pose proof (nth_error_In _ _ Es) as Hin.
+      simpl in Hr, Hok. rewrite Forall_forall in Hr, Hok.
+      pose proof (Hr (RS sid) (in_map RS _ _ Hin)) as Hr1. pose proof (Hok (RS sid) (in_map RS _ _ Hin)) as Hok1. simpl in Hr1, Hok1.
+      destruct (nth_error (streams (st_store G)) sid) as [s|] eqn:Ess; [|apply nth_error_None in Ess; lia].
+      destruct (stream_ready_false _ _ _ Ess (Hall i0 sid (or_introl eq_refl) Es)) as [Hb Hc].
+      destruct (Hstream sid Hr1 Hok1) as (u & s0 & D & R); [exists s; auto|].
+      exists u, s0. split; [eapply DV_mul; eauto | exact R].
+    + inversion Hd as [ | | f0 src0 cin0 cout0 Hd0 | ]; subst. simpl in *. destruct (IHs Hr Hok Hm Hd0) as (u & s & D & R). exists u, s. split; [constructor; exact D | exact R].
+    + inversion Hd as [ | | | p0 i0 P c HP Hc Hi He Hd0]; subst. inversion Hr; subst. simpl in *.
+      destruct (IHn (p_src P)) as (u & s & D & R); auto.
+      * specialize (K2 _ _ HP). eapply Forall_impl; [|exact K2]. simpl. intros r Hr0. lia.
+      * eapply Hpok; eauto.
+      * unfold pmidx in M2. exact (Forall_nth_error _ _ _ _ _ M2 HP).
+      * exists u, s. split; [eapply DV_child; eauto | exact R].
+Qed.
+
+(* ------------------------------------------------------------------ statements over runs *)
+
+(* a Recv that returns "would block" leaves the reader of that handle drained *)
+Lemma run_recv_block_drained : forall fuel ops bs G, run fuel init_state ops = (bs, G) ->
+  forall h ch G', do_op fuel G (ORecv h ch) = (BRecv PBlock, G') ->
+  exists H', nth_error (st_handles G') h = Some H' /\ h_live H' = true /\ Drained (st_store G') (h_rd H').
+Proof.
+  intros fuel ops bs G Hrun h ch G' H. pose proof (reachable_wf _ _ _ _ Hrun) as HW. simpl in H.
+  destruct (nth_error (st_handles G) h) as [Hh|] eqn:Eh; [|discriminate].
+  destruct (negb (h_live Hh)); [discriminate|].
+  destruct (recv fuel (st_store G) (h_rd Hh) ch) as [[[r st1] t1] ch1] eqn:Er.
+  inversion H; subst; clear H. apply recv_Recv in Er. eexists. simpl.
+  split; [apply nth_error_upd_eq; apply nth_error_Some; congruence|]. simpl. split; auto.
+  eapply Recv_block_drained; eauto. apply HW.
+Qed.
+
+(* no_internal_deadlock: in a reachable state in which every forwarder goroutine is blocked
+   (or has finished), a live reader that is drained — on which Recv blocks — derives from a
+   user pipe that is empty and not yet closed by its writer, and a Send on that pipe cannot
+   block.  Equivalently: whenever a Recv blocks, a forwarder goroutine can take a step or the
+   reader waits for a writer that is free to act. *)
+Lemma run_drained_waits : forall fuel ops bs G, run fuel init_state ops = (bs, G) ->
+  (forall F, In F (st_fwds G) -> fwd_blocked fuel G F) ->
+  forall h H, nth_error (st_handles G) h = Some H -> h_live H = true ->
+    Drained (st_store G) (h_rd H) -> waits_for_writer G (h_rd H).
+Proof.
+  intros fuel ops bs G Hrun HB h H Hn Hlv Hd.
+  pose proof (reachable_wf _ _ _ _ Hrun) as HW. destruct (reachable_ranked _ _ _ _ Hrun) as (rs & rp & HK).
+  pose proof (run_midx _ _ _ _ _ Hrun init_midx) as HM. pose proof (run_feeds _ _ _ _ _ Hrun init_feeds) as HF.
+  assert (Hok : Forall (ref_ok (st_store G)) (refs (h_rd H))).
+  { destruct HW as (_ & W2 & _). rewrite Forall_forall in *. intros r Hr. apply W2.
+    unfold all_refs. apply in_or_app. left. apply in_flat_map. exists H. split; [eapply nth_error_In; eauto|].
+    unfold hrefs. rewrite Hlv. exact Hr. }
+  eapply (drained_cause fuel G rs rp HW HK HM HF HB (S (list_max (map (rkr rs rp) (refs (h_rd H)))))); auto.
+  - rewrite Forall_forall. intros r Hr. apply Nat.lt_succ_r. apply list_max_ge. apply in_map. exact Hr.
+  - destruct HM as (M1 & _). exact (Forall_nth_error _ _ _ _ _ M1 Hn).
 Qed.
